@@ -20,6 +20,7 @@ package offered
 import (
 	"context"
 	"fmt"
+	"k8s.io/apimachinery/pkg/runtime"
 	"strings"
 	"time"
 
@@ -409,7 +410,7 @@ func (r *Reconciler) Reconcile(ctx context.Context, req reconcile.Request) (reco
 	}
 
 	origRV := ""
-	if err := r.client.Apply(ctx, crd, resource.MustBeControllableBy(d.GetUID()), resource.StoreCurrentRV(&origRV)); err != nil {
+	if err := r.client.Apply(ctx, crd, resource.MustBeControllableBy(d.GetUID()), resource.StoreCurrentRV(&origRV), keepFinalizers()); err != nil {
 		if kerrors.IsConflict(err) {
 			return reconcile.Result{Requeue: true}, nil
 		}
@@ -511,4 +512,22 @@ func (r *Reconciler) Reconcile(ctx context.Context, req reconcile.Request) (reco
 	d.Status.Controllers.CompositeResourceClaimTypeRef = v1.TypeReferenceTo(d.GetClaimGroupVersionKind())
 	d.Status.SetConditions(v1.WatchingClaim())
 	return reconcile.Result{Requeue: false}, errors.Wrap(r.client.Status().Update(ctx, d), errUpdateStatus)
+}
+
+// keepFinalizers carries the finalizers of the existing CRD over to the desired
+// one. We render CRDs without finalizers, so updating an existing CRD would
+// otherwise strip finalizers others rely on - in particular the API server's
+// cleanup finalizer that keeps a deleted CRD around until all of its custom
+// resources are gone.
+func keepFinalizers() resource.ApplyOption {
+	return func(_ context.Context, current, desired runtime.Object) error {
+		c, ok := current.(metav1.Object)
+		if !ok {
+			return nil
+		}
+		if d, ok := desired.(metav1.Object); ok {
+			d.SetFinalizers(c.GetFinalizers())
+		}
+		return nil
+	}
 }
